@@ -464,7 +464,7 @@ fn line_ending_layer(col: &Collector) -> u64 {
 
 pub fn run(ctx: &Ctx) -> i32 {
     let col = Collector::new();
-    let maxlen = ctx.tier.pick(2, 3) as u32;
+    let maxlen = ctx.tier.pick(2, 4) as u32;
     for kt in ["TEXT", "INT", "REAL", "INT:big", "REAL:big"] {
         let tables = sut::make_tables(&defs(kt)).unwrap();
         let km = main_alpha(kt).len() as u64;
